@@ -162,10 +162,10 @@ func propC05(c *Check) {
 		c.RequireFact(h, "R3", "decode", lit("(MsgTx.DeserializeNoWitness("+tx+", bytes.NewReader("+txField+")) == nil)"), nil, "")
 		c.RequireFact(h, "R3", "decode-consumes-all", `^\(Reader\.Len\(bytes\.NewReader\(`+regexp.QuoteMeta(txField)+`\)\) (<=|==) 0\)$`, nil, "")
 		c.RequireFact(h, "R3", "output-count n or n+1", lit(EQ("len("+ids+")", "len("+tx+".TxOut)"))+"|"+lit(EQ("(1 + len("+ids+"))", "len("+tx+".TxOut)")), nil, "")
-		c.RequireFact(h, "R3", "fee-rate<=MaxTxPrice", lit("(("+feeField+" / len("+txField+")) <= "+W+".MaxTxPrice)"), tset, "record write")
+		c.RequireFact(h, "R3", "fee-rate<=MaxTxPrice", patLE("("+feeField+" / len("+txField+"))", W+".MaxTxPrice"), tset, "record write")
 		c.RequireFact(h, "R3", "address-decodes", lit("(bitcoin/types.DecodeBtcAddress("+W+".Address, "+net+")#1 == nil)"), tset, "record write")
 		c.RequireFact(h, "R3", "script-equals-address", lit("bytes.Equal(bitcoin/types.DecodeBtcAddress("+W+".Address, "+net+")#0, "+tx+".TxOut["+i+"].PkScript)"), tset, "record write")
-		c.RequireFact(h, "R3", "value<=requested", `^\(`+regexp.QuoteMeta(tx+".TxOut["+i+"].Value")+` <= `+regexp.QuoteMeta(W+".RequestAmount")+`\)$`, tset, "record write")
+		c.RequireFact(h, "R3", "value<=requested", patLE(tx+".TxOut["+i+"].Value", W+".RequestAmount"), tset, "record write")
 		c.RequireFact(h, "R3", "extra-output-pays-relayer-key", lit(EQ("len("+ids+")", "len("+tx+".TxOut)"))+"|"+lit("bitcoin/types.VerifySystemAddressScript(Pubkey.Get()#0, "+tx+".TxOut[len("+ids+")].PkScript)"), nil, "")
 		// the loop covers every id: range over ids bounded by len(ids)
 		c.RequireFact(h, "R3", "all-ids-visited", lit("(len("+ids+") <= "+i+")"), nil, "")
@@ -230,7 +230,7 @@ func propC05(c *Check) {
 				c.Violated("R3", "processing-entry-stored @ "+fnKey, p.Pos(h.Pos()), "no Processing.Set reason=not-established")
 			}
 		} else {
-			c.RequireFact(h, "R3", "strictly-higher-fee", lit("(Processing.Get($2.Pid)#0.Fee < $2.NewTxFee)")+"|"+lit("((1 + Processing.Get($2.Pid)#0.Fee) <= $2.NewTxFee)"), nil, "")
+			c.RequireFact(h, "R3", "strictly-higher-fee", patLT("Processing.Get($2.Pid)#0.Fee", "$2.NewTxFee"), nil, "")
 			// new txid: the equality branch can only fail
 			dup := lit("bytes.Equal(Processing.Get($2.Pid)#0.Txid[" + i + "], crypto.DoubleSHA256Sum(" + txField + "))")
 			edges := p.MatchEdges(h, regexp.MustCompile(dup))
